@@ -144,6 +144,9 @@ def perms(ndim):
 PAD1 = ((0, 0), (1, 0), (0, 3), (3, 3))
 PAD3 = ((0, 0), (3, 3))
 LAYOUTS = ("C", "F", "rev", "strided")
+# (prediction layout, reference layout): same layout on both sides, and mixed layouts
+LAYOUT_PAIRS = (("C", "C"), ("F", "F"), ("rev", "rev"), ("strided", "strided"), ("F", "C"), ("C", "F"), ("rev", "C"), ("strided", "F"))
+LAYOUT_PAIRS_ALL = tuple((a, b) for a in LAYOUTS for b in LAYOUTS)
 
 
 def pad_patterns(ndim):
@@ -151,7 +154,10 @@ def pad_patterns(ndim):
     return list(itertools.product(base, repeat=ndim))
 
 
-def apply_transform(arr, flip, perm, pad, layout):
+def apply_transform(arr, flip, perm, pad, layout, side=0):
+    """layout: a layout name, or a pair (prediction layout, reference layout) - `side` selects the component"""
+    if not isinstance(layout, str):
+        layout = layout[side]
     a = arr
     for ax, fl in enumerate(flip):
         if fl:
@@ -182,7 +188,7 @@ def transforms_full(ndim):
     for fl in flips(ndim):
         for pm in perms(ndim):
             for pd in pad_patterns(ndim):
-                for ly in LAYOUTS:
+                for ly in LAYOUT_PAIRS:
                     yield (fl, pm, pd, ly)
 
 
@@ -201,8 +207,13 @@ def transforms_gen(ndim):
     for pd in pad_patterns(ndim):
         if pd != ident_pad:
             out.append((ident_f, ident_p, pd, "C"))
-    for ly in LAYOUTS[1:]:
+    for ly in LAYOUT_PAIRS_ALL[1:]:
         out.append((ident_f, ident_p, ident_pad, ly))
+    # mixed layouts combined with each axis permutation (Fortran order is what a transposed view has)
+    for pm in perms(ndim):
+        if pm != ident_p:
+            for ly in (("F", "C"), ("C", "F"), ("rev", "F"), ("strided", "C")):
+                out.append((ident_f, pm, ident_pad, ly))
     return out
 
 
